@@ -166,6 +166,17 @@ def run_kind(prog, res, kind):
             inits.append(("open-failed", s.set(("nodev",), 1)))
     ex = Explorer(it, ops)
     ex.explore(inits)
+    if kind == "Storage":
+        # storage_validate opens, configures and closes a device of its own
+        res.touched(prog.func("storage_validate"))
+        it.cur_witness = ["storage_validate"]
+        for rv, s in it.run("storage_validate", [("ptr", "obj:system", ()), ("ptr", "obj:ident", ()),
+                                                  ("ptr", "obj:arg", ())], s0):
+            opened = s.get(model.G_CLOSED) is not None
+            if opened and not s.get(model.G_CLOSED):
+                model.report(it, "HAL-CLOSE-ONCE", "storage_validate>leak",
+                             "storage_validate returns with the device it opened still open")
+            ex.transitions += 1
     if it.truncated:
         raise AnalysisBroken("exploration truncated: %s" % it.truncated[:3])
     n_dev_states = len({(model.dev_state(it, s), s.get(G_STARTED), s.get(G_CLOSED)) for s in ex.states.values()})
